@@ -281,10 +281,16 @@ PROPS["C15"] = dict(
          "towards a reading peer (fast or slow) over tcp/ipc/inproc, then close() / term() / close()+term() / handle drop + term() with "
          "LINGER in {-1, 0, 10 s (, 50 ms, 1 s)}. The C01 integrity oracle runs on what the peer received (never truncated, corrupt or "
          "duplicated); completeness is required when LINGER is -1 or 10 s; close/term wall time must be prompt for LINGER 0 (< 3 s) and must "
-         "not exceed LINGER + 12 s otherwise. distinct = (sender, transport, LINGER, depth, how, reader pace).",
+         "not exceed LINGER + 12 s otherwise. distinct = (sender, transport, LINGER, depth, how, reader pace). "
+         "(settled) the sender's side taken out of the picture: a burst of <= 48 KiB (20..300 messages) is accepted by PUSH / ROUTER over tcp/ipc, "
+         "the sender waits 0.7 s so that its session has written everything, then close / term / close+term / drop+term with LINGER in "
+         "{-1,0,100 ms,10 s}; the receiver has RCVHWM in {1,5,50(,2,20,100)} and RCVBATCH_COUNT {default,1,4} and either starts reading only "
+         "after the close has returned or reads at 2-5 ms per message, so that accepted messages are still parked in the receiving session "
+         "and per-pipe queue when the peer's end-of-stream arrives: every accepted message must still be received, exactly once and intact.",
     assumptions=["'ample' LINGER = 10 s for at most 20 MB over loopback", "PUB may legitimately drop, so completeness is not required of it",
                  "DEALER loss/reorder is recorded under C01 and not re-judged here"],
-    shards=lambda tier, seed: sharded("c15", _n(tier, 12, 16), _n(tier, 600, 3000)),
+    shards=lambda tier, seed: sharded("c15", _n(tier, 12, 16), _n(tier, 600, 3000))
+    + sharded("c15", _n(tier, 4, 8), _n(tier, 600, 1800), extra=["--only", "settled"], name="c15-settled"),
     max_parallel=8,
     min_evaluations={"quick": 30, "thorough": 300},
 )
